@@ -173,7 +173,111 @@ def build_ref(case):
     return ttn
 
 
-def build_ham(case):
+# [str-C01] how the caller stores the numbers a symbol is mapped to / the arrays of the operator table.  The property
+# quantifies over "symbolic coefficients mapped to arbitrary complex numbers" and over the operator table: the same
+# numbers may reach the library as Python numbers, numpy scalars or 0-d arrays (np.asarray(x), np.squeeze, views into a
+# parameter vector, read-only), the same matrices as complex/real/integer arrays in any memory layout.
+COEF_REAL = ("py_float", "np_float64", "arr0_real")
+COEF_INT = ("py_int", "np_int64", "arr0_int")
+COEF_KINDS = ["py_complex", "py_float", "py_int", "np_complex128", "np_float64", "np_int64", "arr0_asarray", "arr0_array",
+              "arr0_squeeze", "arr0_reshape", "arr0_real", "arr0_int", "arr0_view", "arr0_readonly"]
+COEF_ARR0_WRITABLE = ("arr0_asarray", "arr0_array", "arr0_squeeze", "arr0_reshape", "arr0_real", "arr0_view")
+TAB_KINDS = ["c128", "f64", "int64", "fortran", "strided", "stack_view", "transposed", "readonly"]
+SYMBOLS = ["1", "g1", "g2", "g3", "g4"]
+
+
+def coef_value(kind, z):
+    """the number (plain Python complex) a symbol with default value z is mapped to when it is stored as `kind`"""
+    z = complex(z)
+    if kind in COEF_REAL:
+        return complex(z.real, 0.0)
+    if kind in COEF_INT:
+        k = int(round(2 * z.real))
+        return complex(k if k != 0 else 2, 0.0)
+    return z
+
+
+def coef_object(kind, v):
+    """the object the caller puts into coeffs_mapping for the number v (see coef_value)"""
+    v = complex(v)
+    re = v.real
+    if kind in (None, "py_complex"):
+        return v
+    if kind == "py_float":
+        return float(re)
+    if kind == "py_int":
+        return int(re)
+    if kind == "np_complex128":
+        return np.complex128(v)
+    if kind == "np_float64":
+        return np.float64(re)
+    if kind == "np_int64":
+        return np.int64(int(re))
+    if kind == "arr0_asarray":
+        return np.asarray(v)
+    if kind == "arr0_array":
+        return np.array(v, dtype=complex)
+    if kind == "arr0_squeeze":
+        return np.squeeze(np.array([v]))
+    if kind == "arr0_reshape":
+        return np.array([[v]]).reshape(())
+    if kind == "arr0_real":
+        return np.asarray(re)
+    if kind == "arr0_int":
+        return np.array(int(re))
+    if kind == "arr0_view":             # 0-d view into a parameter vector the caller keeps
+        buf = np.array([0.5, v, -1.0], dtype=complex)
+        return buf[1:2].reshape(())
+    if kind == "arr0_readonly":
+        a = np.array(v, dtype=complex)
+        a.setflags(write=False)
+        return a
+    raise ValueError(f"harness: unknown coefficient representation {kind}")
+
+
+def table_value(kind, lab, a):
+    """the matrix (complex, fresh) label `lab` with default value a stands for when it is stored as `kind`"""
+    a = np.array(a, dtype=complex)
+    if lab.startswith("I"):
+        return a
+    if kind == "f64":
+        return np.array(a.real, dtype=complex)
+    if kind == "int64":
+        return np.array(np.rint(2 * a.real), dtype=complex)
+    return a
+
+
+def table_object(kind, val):
+    """the array the caller puts into the conversion dictionary for the matrix val"""
+    d = val.shape[0]
+    if kind in (None, "c128"):
+        return np.array(val, dtype=complex)
+    if kind == "f64":
+        return np.array(val.real, dtype=float)
+    if kind == "int64":
+        return np.array(np.rint(val.real), dtype=np.int64)
+    if kind == "fortran":
+        return np.asfortranarray(np.array(val, dtype=complex))
+    if kind == "strided":
+        big = np.full((2 * d, 2 * d), 7.5 - 2j, dtype=complex)
+        big[::2, ::2] = val
+        return big[::2, ::2]
+    if kind == "stack_view":            # one of several operators kept in one stacked array
+        stack = np.full((3, d, d), -3.25 + 1j, dtype=complex)
+        stack[1] = val
+        return stack[1]
+    if kind == "transposed":
+        return np.array(val.T, dtype=complex).T
+    if kind == "readonly":
+        a = np.array(val, dtype=complex)
+        a.setflags(write=False)
+        return a
+    raise ValueError(f"harness: unknown table representation {kind}")
+
+
+def default_values(case):
+    """(operator table, symbol values) of a case: the default draw (complex standard normal matrices, identity for
+    'I<d>', complex symbol values) adjusted to the value class of the case's representations (real / integer)"""
     nprs = np.random.RandomState((case["seed"] * 7 + 1) % (2 ** 31))
     conv = util.rand_conv(nprs, sorted(set(case["phys"])), case.get("nlabels", 3))
     if case.get("labelset") == "amb":
@@ -182,10 +286,64 @@ def build_ham(case):
     cm = {"1": 1}
     for k in range(1, 5):
         cm[f"g{k}"] = complex(nprs.standard_normal(), nprs.standard_normal())
-    terms = []
-    for num, den, g, ops in case["terms"]:
-        terms.append((Fraction(num, den), g, TensorProduct({(nid(int(k)) if not str(k).startswith("x") else str(k)): v for k, v in ops})))
-    return Hamiltonian(terms, conv, cm)
+    tr, cr = case.get("tabrepr") or {}, case.get("coefrepr") or {}
+    for lab, kind in tr.items():
+        if lab in conv:
+            conv[lab] = table_value(kind, lab, conv[lab])
+    for g, kind in cr.items():
+        if g in cm and g != "1":
+            cm[g] = coef_value(kind, cm[g])
+    return conv, cm
+
+
+def make_term(t):
+    num, den, g, ops = t
+    return (Fraction(num, den), g, TensorProduct({(nid(int(k)) if not str(k).startswith("x") else str(k)): v for k, v in ops}))
+
+
+def build_ham(case, pristine=False, terms=None, values=None):
+    """the live Hamiltonian of a case.  Without the optional keys 'tabrepr' / 'coefrepr' (label -> TAB_KINDS, symbol ->
+    COEF_KINDS) the objects are what they always were (complex arrays, Python complex numbers, "1" -> 1).  pristine=True:
+    the same numbers as fresh complex arrays / plain Python complex numbers (the harness keeps these for its references,
+    the library never sees them).  terms: use these instead of case['terms'];  values: current symbol values (after the
+    'remap' steps of a history) instead of the defaults."""
+    conv, cm = default_values(case)
+    if values is not None:
+        cm = dict(cm, **{g: v for g, v in values.items() if g in cm})
+    tr, cr = case.get("tabrepr") or {}, case.get("coefrepr") or {}
+    if pristine:
+        conv = {lab: np.array(a, dtype=complex) for lab, a in conv.items()}
+        cm = {g: complex(v) for g, v in cm.items()}
+    else:
+        for lab, kind in tr.items():
+            if lab in conv:
+                conv[lab] = table_object(kind, conv[lab])
+        for g, kind in cr.items():
+            if g in cm:
+                cm[g] = coef_object(kind, cm[g])
+    return Hamiltonian([make_term(t) for t in (case["terms"] if terms is None else terms)], conv, cm)
+
+
+def dense_terms(terms, pre, phys, conv, cm):
+    """sum_k lambda_k * gamma_k * kron over the sites in pre-order, identity where a term does not act: the reference
+    the property text names, from the case's term list and the harness's own (pristine) table and symbol values"""
+    D = int(np.prod([phys[i] for i in pre]))
+    M = np.zeros((D, D), dtype=complex)
+    for num, den, g, ops in terms:
+        d = {int(k): v for k, v in ops}
+        m = np.ones((1, 1), dtype=complex)
+        for i in pre:
+            m = np.kron(m, conv[d[i]] if i in d else np.eye(phys[i]))
+        M = M + (num / den) * complex(cm[g]) * m
+    return M
+
+
+def table_labels(phys, nlabels=3, amb=False):
+    out = []
+    for d in sorted(set(phys)):
+        out.append(f"I{d}")
+        out += [f"A{l}_{d}" for l in range(nlabels)]
+    return out + (list(AMB) if amb else [])
 
 
 @contextlib.contextmanager
@@ -700,6 +858,95 @@ def random_terms(rng, phys, nterms, coefmode, dupmode, nlabels, distinct_strings
     return terms
 
 
+# ------------------------------------------------------------------------------------------
+# [str-C01] configurations of the caller's objects, histories on one Hamiltonian object
+# ------------------------------------------------------------------------------------------
+def random_coefrepr(rng):
+    """symbol -> COEF_KINDS: one family for all symbols or an independent draw per symbol"""
+    mode = rng.choice(["arr0", "arr0", "np", "mixed", "mixed", "py"])
+    pool = {"arr0": [k for k in COEF_KINDS if k.startswith("arr0")], "np": [k for k in COEF_KINDS if k.startswith("np_")],
+            "py": [k for k in COEF_KINDS if k.startswith("py_")], "mixed": COEF_KINDS}[mode]
+    return {g: rng.choice(pool) for g in SYMBOLS}
+
+
+def random_tabrepr(rng, labels):
+    mode = rng.choice(["mixed", "mixed", "one"])
+    one = rng.choice(TAB_KINDS)
+    return {lab: (one if mode == "one" else rng.choice(TAB_KINDS)) for lab in labels}
+
+
+EXTEND_HOWS = ["add_term", "add_multiple_terms", "add_hamiltonian", "add_hamiltonian", "plus_ham", "plus_tp", "terms_extend"]
+
+
+def random_history(rng, ch, phys, terms, coefrepr, cap):
+    """what the caller did with ONE Hamiltonian object (and one reference tree object) before the conversion the case is
+    about: built from the first `init` terms, then any of
+      convert   TTNO.from_hamiltonian(ham, tree, method) for the same tree object / a deep copy / another tree on the same
+                identifiers (other shape and child order, other dimensions on the sites no term touches so far)
+      pad / to_matrix   the other public entry points that pad the Hamiltonian for a tree
+      remap     the caller changes the number a symbol stands for (new object, or in place in a 0-d parameter array)
+      extend    the next terms are added through add_term / add_multiple_terms / add_hamiltonian (the other Hamiltonian
+                sharing this one's dictionaries or carrying equal fresh ones) / ham + other / ham + tensor product /
+                ham.terms.extend
+    until all terms of the case are in.  -> {"init": k0, "steps": [...]}"""
+    n, T = len(ch), len(terms)
+    D = int(np.prod(phys))
+    k0 = T if (T == 1 or rng.random() < 0.12) else rng.randrange(1, T)
+    steps = []
+    state = {"k": k0, "nconv": 0}
+
+    def convert():
+        where = rng.choice(["same", "same", "same", "copy", "other"])
+        st = {"op": "convert", "method": rng.choice(["final", "final", "SGE", "BIPARTITE", "BIPARTITE", "TREE", "BASE", "BASE"]), "tree": where}
+        if where == "other":
+            touched = {int(k) for t in terms[:state["k"]] for k, _ in t[3]}
+            phys2 = [phys[i] if i in touched else rng.choice(sorted(set(phys))) for i in range(n)]
+            if int(np.prod(phys2)) > cap:
+                phys2 = list(phys)
+            st["other"] = {"children": random_children(rng, n), "phys": phys2, "seed": rng.randrange(10 ** 6)}
+        state["nconv"] += 1
+        return st
+
+    def between():
+        for _ in range(rng.choice([0, 1, 1, 2])):
+            r = rng.random()
+            used = sorted({t[2] for t in terms} - {"1"})
+            if r < 0.6:
+                steps.append(convert())
+            elif r < 0.72:
+                steps.append({"op": "pad", "tree": rng.choice(["same", "same", "copy"]), "symbolic": rng.random() < 0.7})
+            elif r < 0.8 and D <= 64:
+                steps.append({"op": "to_matrix", "tree": "same"})
+            elif r < 0.95 and used:
+                g = rng.choice(used)
+                kind = (coefrepr or {}).get(g)
+                v = coef_value(kind, complex(round(rng.uniform(-2, 2), 3), round(rng.uniform(-2, 2), 3)))
+                steps.append({"op": "remap", "sym": g, "re": v.real, "im": v.imag,
+                              "inplace": bool(kind in COEF_ARR0_WRITABLE and rng.random() < 0.5)})
+    between()
+    while state["k"] < T:
+        m = rng.randrange(1, T - state["k"] + 1)
+        steps.append({"op": "extend", "how": rng.choice(EXTEND_HOWS), "n": m, "shared_dicts": rng.random() < 0.5,
+                      "bare": rng.random() < 0.5})
+        state["k"] += m
+        between()
+    ext = [i for i, st in enumerate(steps) if st["op"] == "extend"]
+    used_before = ext and any(st["op"] in ("convert", "pad", "to_matrix") for st in steps[:ext[-1]])
+    if (state["nconv"] == 0) or (ext and not used_before and rng.random() < 0.7):
+        # use / extend / use: the object is converted (at the latest) before its last extension; a history without any
+        # earlier use of the object says nothing
+        pos = ext[-1] if ext and (state["nconv"] > 0 or rng.random() < 0.8) else len(steps)
+        state["k"] = k0 + sum(st["n"] for st in steps[:pos] if st["op"] == "extend")
+        steps.insert(pos, convert())
+    return {"init": k0, "steps": steps}
+
+
+def history_prefix(case, upto):
+    """number of terms the Hamiltonian object holds before step `upto` of the history"""
+    h = case["history"]
+    return h["init"] + sum(st["n"] for st in h["steps"][:upto] if st["op"] == "extend")
+
+
 def random_diagram(rng, ch, phys, nlabels=3):
     """a random well-indexed state diagram on the tree: per edge 1..3 vertices, per node 1..4 hyperedges, each
     sitting on one random vertex of every incident edge.  hes: [node, label, num, den, symbol, [vertex index per
@@ -764,7 +1011,16 @@ class C01(Prop):
             "proportional outside the first column: abandoned row additions next to accepted compressions), 20% use operator names with ambiguous "
             "concatenations (n, nn, nnn, x, xx) incl. label-exchanged term pairs on a node and its leaf child; every group is run with all four "
             "TTNOFinder methods (one case per method) plus random well-indexed diagrams injected into TTNO.from_state_diagram and a malformed "
-            "stream (term on an unknown site). non-trivial = >= 2 nodes and >= 2 terms; "
+            "stream (term on an unknown site). Further groups (same generators, trees of 1..6 nodes, again all four methods) vary what the text leaves "
+            "to the caller: 'repr' groups store the numbers of the coefficient mapping (incl. the symbol '1') as Python complex/float/int, numpy scalars or "
+            "0-d arrays (np.asarray, np.array, squeeze, reshape, real, integer, a view into a parameter vector, read-only) and the arrays of the operator table "
+            "as complex / float64 / int64, C / Fortran / strided / stacked-view / transposed / read-only; 'hist' groups convert a Hamiltonian OBJECT that has "
+            "been used before: built from the first terms, then converted (any method; same tree object, a deep copy, another tree on the same identifiers), padded, "
+            "to_matrix'ed, a symbol re-mapped (new object or in place in a 0-d array), extended by add_term / add_multiple_terms / add_hamiltonian (shared or "
+            "fresh equal dictionaries) / ham + ham / ham + tensor product / ham.terms.extend until it holds the case's terms, then converted with the case's "
+            "method (tie + certificate on this last conversion); every conversion on the way is judged by the oracle against the terms and symbol values "
+            "of that moment (where no recorded finding covers that (terms, method) pair); the dense references use the harness's own pristine copies of table "
+            "and symbol values. non-trivial = >= 2 nodes and >= 2 terms; "
             "distinct by case content")
     clauses = [
         ("F", "sd_check_sound / sd_refute_sound: sd_check t H d = true -> the diagram's denotation and sum_k lambda_k gamma_k (x) labels_k have equal "
@@ -832,7 +1088,10 @@ class C01(Prop):
               "with the operator table (1e-9)"),
         ("V", "BASE: the model's own construction equals the implementation's diagram up to renaming of uuids (per node ordered (label, lambda, gamma, bond indices), vertices per edge); "
               "padding: model labels == implementation's padded dictionary on every node; an unknown site is rejected by both"),
-        ("V", "oracle: sum_k lambda_k*gamma_k*kron(A_k) in site order vs the dense TTNO and vs as_matrix(); identifiers, parent/child relations, child order; physical dimensions"),
+        ("V", "oracle: sum_k lambda_k*gamma_k*kron(A_k) in site order vs the dense TTNO and vs as_matrix(); identifiers, parent/child relations, child order; physical dimensions; "
+              "the reference is computed from the case's term list and the harness's own copies of the operator table and the symbol values (plain complex numbers, "
+              "never handed to the library), so it does not move when the library writes into the caller's objects; applied to the conversion of the case and to every "
+              "earlier conversion of the same Hamiltonian object in a history (terms and symbol values of that moment), for every representation of the caller's numbers"),
     ]
     trusted_base = ["the export of StateDiagram objects (python identity -> names; vertices sorted by the neighbour they point to, as HyperEdge.find_tensor_position does)",
                     "labels/symbols enter the model as opaque naturals: linear independence of distinct operator strings is not needed for soundness (equal polynomials => equal operators)",
@@ -905,12 +1164,58 @@ class C01(Prop):
                            "struct": struct, "labelset": "amb" if amb else "std", "seed": rng.randrange(10 ** 6)})
         return groups
 
+    def _config_groups(self, ctx, stream, budget_scale):
+        """[str-C01] groups that vary what the property text leaves to the caller besides (tree, terms, method): how the
+        numbers of the coefficient mapping and the arrays of the operator table are stored ('repr' groups), and what was
+        done before with the Hamiltonian object that is converted ('hist' groups, half of them with representations too)"""
+        rng = ctx.rng(stream + ":config")
+        cap = ctx.scale(100, 200)
+        plan = ["repr"] * (ctx.scale(14, 200) * budget_scale) + ["hist"] * (ctx.scale(34, 400) * budget_scale)
+        groups = []
+        for what in plan:
+            n = rng.choice([1, 2, 2, 3, 3, 4, 4, 5, 6])
+            ch = random_children(rng, n)
+            phys = random_phys(rng, n, cap)
+            coefmode = rng.choice(["unit", "frac", "sym", "sym", "symshared", "symshared"])
+            dupmode = rng.choice(["none", "none", "none", "none", "prop", "dup"])
+            nterms = rng.choice([1, 2, 3, 3, 4, 4, 5, 6, 7, 8])
+            product = rng.random() < 0.25
+            amb = rng.random() < 0.1
+            if amb:
+                phys = [min(d, AMB_DIM) for d in phys]
+            gamma = n >= 2 and rng.random() < 0.15
+            if gamma:
+                coefmode, dupmode = "sym", "none"
+            terms = random_terms(rng, phys, nterms, coefmode, dupmode, rng.choice([1, 2, 3]), product=product,
+                                 amb=(ch if amb else None), gamma_on=(ch if gamma else None))
+            if not terms:
+                continue
+            g = {"children": ch, "phys": phys, "terms": terms, "nlabels": 3, "coefmode": coefmode, "dupmode": dupmode,
+                 "struct": ("gamma" if gamma else ("product" if product else "random")), "labelset": "amb" if amb else "std",
+                 "seed": rng.randrange(10 ** 6), "family": what}
+            if what == "repr" or rng.random() < 0.5:
+                r = rng.random()
+                if r < 0.8:
+                    g["coefrepr"] = random_coefrepr(rng)
+                if r > 0.5:
+                    g["tabrepr"] = random_tabrepr(rng, table_labels(phys, 3, amb))
+            if what == "hist":
+                g["history"] = random_history(rng, ch, phys, terms, g.get("coefrepr"), cap)
+            groups.append(g)
+        return groups
+
     def generate(self, ctx, stream, budget_scale=1):
         cases = []
         for gi, g in enumerate(self._groups(ctx, stream, budget_scale)):
             for m in METHODS:
                 c = dict(g)
                 c.update(kind="ham", method=m, group=gi)
+                cases.append(c)
+        # [str-C01] same case format (the tie and the per-instance certificate apply to the conversion the case is about)
+        for gi, g in enumerate(self._config_groups(ctx, stream, budget_scale)):
+            for m in METHODS:
+                c = dict(g)
+                c.update(kind="ham", method=m, group=10000 + gi)
                 cases.append(c)
         rng = ctx.rng(stream + ":inject")
         for k in range(ctx.scale(60, 600) * budget_scale):
@@ -951,18 +1256,148 @@ class C01(Prop):
             c["zero_prefactor"] += any(t[0] == 0 for t in x["terms"])
             c["all_prefactors_zero"] += bool(x["terms"]) and all(t[0] == 0 for t in x["terms"])
             c["max_support:" + str(max(len(t[3]) for t in x["terms"]))] += 1
+            # [str-C01] configurations of the caller's objects and histories (counted once per group, as above)
+            if x.get("coefrepr"):
+                c["config:coefrepr"] += 1
+                for g in {t[2] for t in x["terms"]} | {"1"}:
+                    c["coefkind:" + x["coefrepr"].get(g, "py_complex")] += 1
+            if x.get("tabrepr"):
+                c["config:tabrepr"] += 1
+                for k in set(x["tabrepr"].values()):
+                    c["tabkind:" + k] += 1
+            if x.get("history"):
+                c["history:groups"] += 1
+                st = x["history"]["steps"]
+                c["history:steps:" + str(min(len(st), 6)) + ("+" if len(st) >= 6 else "")] += 1
+                for s_ in st:
+                    c["history:" + s_["op"] + (":" + s_["how"] if s_["op"] == "extend" else (":" + s_["tree"] if s_["op"] == "convert" else ""))] += 1
+                ext = [i for i, s_ in enumerate(st) if s_["op"] == "extend"]
+                c["history:use_extend_use"] += bool(ext and any(s_["op"] in ("convert", "pad", "to_matrix") for s_ in st[:ext[-1]]))
+                c["history:repeat_only"] += not ext
         return dict(c)
 
     # ------------------------------------------------------------------------------ implementation
+    # [str-C01] one conversion judged against the reference of the property text
+    @staticmethod
+    def _measure(ttno, ch, phys, ref):
+        """what the oracle needs to know about one TTNO: identifiers / relations / tensor shapes as the TTNO reports them and
+        the deviation of its dense contraction (own einsum) from the reference matrix"""
+        ids = [nid(i) for i in preorder(ch)]
+        rec = {"structure": {k: [ttno.nodes[k].parent, list(ttno.nodes[k].children)] for k in ttno.nodes},
+               "root": ttno.root_id,
+               "shapes": {k: list(ttno.tensors[k].shape) for k in ttno.nodes},
+               "scale": max(1.0, float(np.max(np.abs(ref))))}
+        try:
+            dense = dense_ttno(ttno, ids)
+            rec["oracle_dev"] = float(np.max(np.abs(dense - ref))) if dense.shape == ref.shape else f"shape {dense.shape} vs {ref.shape}"
+        except Exception as e:  # noqa
+            dense = None
+            rec["oracle_dev"] = f"dense contraction failed: {type(e).__name__}: {e}"
+        return rec, dense
+
+    def _run_history(self, case, ham, ttns, pconv, pcm):
+        """[str-C01] performs the steps of case['history'] on the live Hamiltonian `ham` and the live tree `ttns`; every
+        conversion on the way is measured against the reference of the terms the object holds at that moment with the
+        symbol values of that moment (pcm, plain numbers kept by the harness, updated by the remap steps).  Returns the log."""
+        import copy
+        h = case["history"]
+        k = h["init"]
+        log = []
+        for si, st in enumerate(h["steps"]):
+            op = st["op"]
+            if op == "extend":
+                chunk = case["terms"][k:k + st["n"]]
+                assert len(chunk) == st["n"], "harness: history consumes more terms than the case has"
+                k += st["n"]
+                how = st["how"]
+                unit = [t[0] == t[1] == 1 and t[2] == "1" for t in chunk]
+                if how in ("add_hamiltonian", "plus_ham"):
+                    if st.get("shared_dicts"):
+                        other = Hamiltonian([make_term(t) for t in chunk], ham.conversion_dictionary, ham.coeffs_mapping)
+                    else:
+                        other = build_ham(case, terms=chunk, values=pcm)
+                    if how == "plus_ham":
+                        res = ham + other
+                        assert res is ham, "harness: Hamiltonian.__add__ is documented to extend in place"
+                    else:
+                        ham.add_hamiltonian(other)
+                elif how == "add_multiple_terms":
+                    if all(unit) and st.get("bare"):
+                        ham.add_multiple_terms([make_term(t)[2] for t in chunk])
+                    else:
+                        ham.add_multiple_terms([make_term(t) for t in chunk])
+                elif how == "terms_extend":
+                    ham.terms.extend([make_term(t) for t in chunk])
+                else:       # add_term / plus_tp, term by term
+                    for t, u in zip(chunk, unit):
+                        term = make_term(t)
+                        if how == "plus_tp" and u:
+                            res = ham + term[2]
+                            assert res is ham, "harness: Hamiltonian.__add__ is documented to extend in place"
+                        elif u and st.get("bare"):
+                            ham.add_term(term[2])
+                        else:
+                            ham.add_term(term)
+                log.append({"op": "extend", "step": si, "how": how, "nterms": k})
+                continue
+            if op == "remap":
+                v = complex(st["re"], st["im"])
+                pcm[st["sym"]] = v
+                kind = (case.get("coefrepr") or {}).get(st["sym"])
+                if st.get("inplace") and isinstance(ham.coeffs_mapping[st["sym"]], np.ndarray) and ham.coeffs_mapping[st["sym"]].flags.writeable:
+                    ham.coeffs_mapping[st["sym"]][...] = v if kind not in COEF_REAL else v.real
+                else:
+                    ham.coeffs_mapping[st["sym"]] = coef_object(kind, v)
+                log.append({"op": "remap", "step": si})
+                continue
+            tree = ttns if st.get("tree", "same") == "same" else (copy.deepcopy(ttns) if st["tree"] == "copy" else None)
+            sub = {k_: v_ for k_, v_ in case.items() if k_ != "history"}
+            sub["terms"] = case["terms"][:k]
+            if tree is None:
+                sub.update(children=st["other"]["children"], phys=st["other"]["phys"], seed=st["other"]["seed"])
+                tree = build_ref(sub)
+            if op in ("pad", "to_matrix"):        # not judged here (other properties); they are earlier uses of the object
+                rec = {"op": op, "step": si}
+                try:
+                    if op == "pad":
+                        ham.pad_with_identities(tree, symbolic=bool(st.get("symbolic", True)))
+                    else:
+                        ham.to_matrix(tree)
+                except Exception as e:  # noqa
+                    rec["error"] = f"{type(e).__name__}: {e}"
+                log.append(rec)
+                continue
+            m = case["method"] if st["method"] == "final" else st["method"]
+            sub["method"] = m
+            rec = {"op": "convert", "step": si, "method": m, "nterms": k, "tree": st.get("tree", "same"),
+                   "children": sub["children"], "phys": sub["phys"], "judged": self._class_of(sub) is None}
+            try:
+                ttno = TTNO.from_hamiltonian(ham, tree, finder(m))
+                ref = dense_terms(sub["terms"], preorder(sub["children"]), sub["phys"], pconv, pcm)
+                rec.update(self._measure(ttno, sub["children"], sub["phys"], ref)[0])
+            except Exception as e:  # noqa
+                site = traceback.extract_tb(e.__traceback__)[-1].name
+                rec["exception"] = f"{type(e).__name__}: {e} [in {site}]"
+            log.append(rec)
+        assert k == len(case["terms"]), "harness: the history does not end with all terms of the case"
+        return log
+
     def _impl_one(self, case):
         ob = {"method": case["method"]}
         ttns = build_ref(case)
-        ham = build_ham(case)
+        # the harness's own copy of the numbers (fresh complex arrays, plain Python numbers): never handed to the library
+        pristine = build_ham(case, pristine=True)
+        pconv, pcm = pristine.conversion_dictionary, pristine.coeffs_mapping
+        hist = case.get("history") if case["kind"] == "ham" else None
+        ham = build_ham(case, terms=(case["terms"][:hist["init"]] if hist else None))
         ch = case["children"]
         pre = preorder(ch)
         ids = [nid(i) for i in pre]
         dims = {nid(i): case["phys"][i] for i in range(len(ch))}
         captured = {}
+        if hist:
+            ob["history"] = self._run_history(case, ham, ttns, pconv, pcm)
+        given = {g: ham.coeffs_mapping.get(g) for g in pcm}        # the caller's objects at the moment of the conversion
         try:
             if case["kind"] == "inject":
                 captured["sd"] = build_injected(case, ttns)
@@ -981,22 +1416,12 @@ class C01(Prop):
             ob["padded"] = [[str(fr), g, {k: v for k, v in tp.items()}] for fr, g, tp in captured["ham"].terms]
         if case["kind"] == "malformed" or ttno is None:
             return ob
-        conv, cm = ham.conversion_dictionary, ham.coeffs_mapping
-        # ---- structure
-        ob["structure"] = {k: [ttno.nodes[k].parent, list(ttno.nodes[k].children)] for k in ttno.nodes}
-        ob["root"] = ttno.root_id
-        ob["shapes"] = {k: list(ttno.tensors[k].shape) for k in ttno.nodes}
+        conv, cm = pconv, pcm
+        # ---- structure; oracle: dense reference from the ORIGINAL (unpadded) terms of the case
+        ref = dense_terms(case["terms"], pre, case["phys"], conv, cm)
+        rec, dense = self._measure(ttno, ch, case["phys"], ref)
+        ob.update(rec)
         ob["bond_dims"] = {f"{p}|{c}": int(d) for (p, c), d in ttno.bond_dims().items()}
-        # ---- oracle: dense reference from the ORIGINAL (unpadded) Hamiltonian
-        ref = util.dense_ham(ham, ids, dims)
-        scale = max(1.0, float(np.max(np.abs(ref))))
-        ob["scale"] = scale
-        try:
-            dense = dense_ttno(ttno, ids)
-            ob["oracle_dev"] = float(np.max(np.abs(dense - ref))) if dense.shape == ref.shape else f"shape {dense.shape} vs {ref.shape}"
-        except Exception as e:  # noqa
-            dense = None
-            ob["oracle_dev"] = f"dense contraction failed: {type(e).__name__}: {e}"
         try:
             if case["kind"] == "inject":
                 raise StopIteration
@@ -1009,6 +1434,20 @@ class C01(Prop):
             pass
         except Exception as e:  # noqa
             ob["as_matrix_dev"] = f"as_matrix failed: {type(e).__name__}: {e}"
+        # diagnostics: objects of the caller the library wrote into (reported together with a wrong operator only)
+        touched = []
+        for g, obj in given.items():
+            try:
+                if obj is not None and complex(obj) != complex(cm[g]):
+                    touched.append(f"coefficient object of {g!r} holds {complex(obj)}, the caller stored {complex(cm[g])}")
+            except Exception as e:  # noqa
+                touched.append(f"coefficient object of {g!r} unreadable: {type(e).__name__}")
+        for lab, a in conv.items():
+            b = ham.conversion_dictionary.get(lab)
+            if b is not None and (np.shape(b) != a.shape or not np.array_equal(np.asarray(b), a)):
+                touched.append(f"table entry {lab!r} differs from what the caller stored")
+        if touched:
+            ob["caller_objects_changed"] = touched[:4]
         # ---- the diagram and the tensor filling
         if "sd" not in captured:
             ob["sd"] = {"hes": [], "vxs": [], "malformed": "TTNO.from_hamiltonian did not call StateDiagram.from_hamiltonian"}
@@ -1228,6 +1667,22 @@ class C01(Prop):
         return (per_node, [(c, cnt[c]) for c in pre[1:]])
 
     # ------------------------------------------------------------------------------ oracle
+    @staticmethod
+    def _oracle_conv(tag, ch, phys, rec):
+        """the property text on ONE conversion (rec = _measure of its TTNO): identifiers and parent/child relations of the
+        reference tree, physical dimensions, the operator.  None or the description without notes"""
+        par = parents_of(ch)
+        want = {nid(i): [nid(par[i]) if par[i] is not None else None, [nid(c) for c in ch[i]]] for i in range(len(ch))}
+        if rec["structure"] != want or rec["root"] != nid(0):
+            return f"{tag} structure differs from the reference tree: {rec['structure']} vs {want}"
+        for i in range(len(ch)):
+            d = phys[i]
+            if rec["shapes"][nid(i)][-2:] != [d, d] or len(rec["shapes"][nid(i)]) != len(ch[i]) + (par[i] is not None) + 2:
+                return f"{tag} node {nid(i)} has tensor shape {rec['shapes'][nid(i)]}, physical dimension should be {d}"
+        if isinstance(rec["oracle_dev"], str) or rec["oracle_dev"] > TOL * rec["scale"]:
+            return f"{tag} TTNO differs from sum_k c_k (x) A_k: {rec['oracle_dev']}"
+        return None
+
     def oracle(self, case, ob):
         m = case["method"]
         if "harness_error" in ob or case["kind"] == "inject":
@@ -1236,29 +1691,42 @@ class C01(Prop):
             if "exception" not in ob:
                 return f"[{m}] a term on a site that is not in the tree was accepted"
             return None
+        # [str-C01] earlier conversions of the same Hamiltonian object (judged where no recorded finding covers the
+        # (terms so far, method) pair): each must be exact for the terms and symbol values the object held at that moment
+        nconv = 0
+        for rec in ob.get("history", []):
+            if rec["op"] != "convert":
+                continue
+            nconv += 1
+            if not rec["judged"]:
+                continue
+            tag = (f"[history] conversion no. {nconv} of one Hamiltonian object (step {rec['step']}, method {rec['method']}, "
+                   f"{rec['nterms']} of {len(case['terms'])} terms so far, tree object: {rec['tree']}):")
+            if "exception" in rec:
+                return f"{tag} raised {rec['exception']}"
+            what = self._oracle_conv(tag, rec["children"], rec["phys"], rec)
+            if what:
+                return what
+        hist = f" (conversion no. {nconv + 1} of this Hamiltonian object, after {[r['op'] + (':' + r['how'] if 'how' in r else '') for r in ob['history']]})" \
+            if "history" in ob else ""
         if "exception" in ob:
-            return f"[{m}] raised {ob['exception']}"
-        ch = case["children"]
-        par = parents_of(ch)
-        want = {nid(i): [nid(par[i]) if par[i] is not None else None, [nid(c) for c in ch[i]]] for i in range(len(ch))}
-        if ob["structure"] != want or ob["root"] != nid(0):
-            return f"[{m}] structure differs from the reference tree: {ob['structure']} vs {want}"
-        for i in range(len(ch)):
-            d = case["phys"][i]
-            if ob["shapes"][nid(i)][-2:] != [d, d] or len(ob["shapes"][nid(i)]) != len(ch[i]) + (par[i] is not None) + 2:
-                return f"[{m}] node {nid(i)} has tensor shape {ob['shapes'][nid(i)]}, physical dimension should be {d}"
-        tol = TOL * ob["scale"]
-        if isinstance(ob["oracle_dev"], str) or ob["oracle_dev"] > tol:
+            return f"[{m}] raised {ob['exception']}{hist}"
+        what = self._oracle_conv(f"[{m}]", case["children"], case["phys"], ob)
+        if what:
             note = ""
-            if ob.get("mult_lost"):
-                note += "; the diagram denotes the Hamiltonian with exactly repeated terms counted fewer times"
-            if ob.get("support_ok"):
-                note += "; operator strings agree, coefficients differ"
-            elif ob.get("strings_sub"):
-                note += "; no operator string outside the Hamiltonian's, some are lost"
-            return f"[{m}] TTNO differs from sum_k c_k (x) A_k: {ob['oracle_dev']}{note}"
+            if "TTNO differs from" in what:
+                if ob.get("mult_lost"):
+                    note += "; the diagram denotes the Hamiltonian with exactly repeated terms counted fewer times"
+                if ob.get("support_ok"):
+                    note += "; operator strings agree, coefficients differ"
+                elif ob.get("strings_sub"):
+                    note += "; no operator string outside the Hamiltonian's, some are lost"
+            if ob.get("caller_objects_changed"):
+                note += "; objects of the caller were written to: " + "; ".join(ob["caller_objects_changed"])
+            return what + note + hist
+        tol = TOL * ob["scale"]
         if isinstance(ob["as_matrix_dev"], str) or ob["as_matrix_dev"] > tol:
-            return f"[{m}] as_matrix() differs from sum_k c_k (x) A_k: {ob['as_matrix_dev']}"
+            return f"[{m}] as_matrix() differs from sum_k c_k (x) A_k: {ob['as_matrix_dev']}{hist}"
         return None
 
     # ------------------------------------------------------------------------------ findings
@@ -1294,7 +1762,7 @@ class C01(Prop):
         the Hamiltonian's operator strings and only coefficients are wrong.  C01-duplicate-terms: method SGE/BIPARTITE/TREE, two padded terms are
         identical (prefactor, symbol, operator string), and the diagram denotes the Hamiltonian with repeated terms counted fewer times (>= once), or
         the construction dies with the IndexError of _remove_reduntant_v_hyperedges.  Anything else stays a violation."""
-        if what.startswith("tie:"):
+        if what.startswith("tie:") or what.startswith("[history]"):
             return None
         kid = self._class_of(case)
         if kid is None or kid not in known:
